@@ -88,6 +88,36 @@ def check_case(kind, depth, acc, apex, cs, part, full_cache):
             if c in vis and (c not in idx or idx[c] > idx[p]):
                 bad("generator-order", "%r yielded before its in-scope child %r" % (p, c))
                 break
+    # the same questions asked of ONE instance, before and after restricting it to the sub-pyramid,
+    # and asked twice: answers must not depend on what was asked earlier
+    if apex != (0, 0, 0):
+        try:
+            with quiet():
+                from toasty.pyramid import Pos
+
+                one = stages.make_pyramid(kind, depth, acc, None, cs)
+                before = (one.count_leaf_tiles(), one.count_live_tiles(), one.count_operations())
+                one.subpyramid(Pos(*apex))
+                after = (one.count_leaf_tiles(), one.count_live_tiles(), one.count_operations())
+                again = (one.count_leaf_tiles(), one.count_live_tiles(), one.count_operations())
+                v = []
+                one.visit_leaves(lambda pos, tile: v.append(tuple(pos)), parallel=1)
+            if after != (n_leaf_ref, n_live_ref, n_ops_ref) or again != after or sorted(v) != sorted(tuple(p) for p in model.leaves):
+                bad("history/counts-after-subpyramid", "one instance: counts before subpyramid() %r, after %r (asked again %r), fresh instance / reference %r; leaves visited %d" % (before, after, again, (n_leaf_ref, n_live_ref, n_ops_ref), len(v)))
+        except Exception as e:
+            bad("history/raises:%s" % type(e).__name__, repr(e))
+    else:
+        try:
+            with quiet():
+                one = mk()
+                a1 = (one.count_leaf_tiles(), one.count_live_tiles(), one.count_operations())
+                v = []
+                one.visit_leaves(lambda pos, tile: v.append(tuple(pos)), parallel=1)
+                a2 = (one.count_leaf_tiles(), one.count_live_tiles(), one.count_operations())
+            if a1 != a2 or a1 != (n_leaf_ref, n_live_ref, n_ops_ref):
+                bad("history/counts-change-between-calls", "one instance: %r then %r, reference %r" % (a1, a2, (n_leaf_ref, n_live_ref, n_ops_ref)))
+        except Exception as e:
+            bad("history/raises:%s" % type(e).__name__, repr(e))
     # sub-pyramid = the part of the full result below the apex (differential, no reference)
     if apex != (0, 0, 0):
         key = (kind, depth, tuple(acc) if acc is not None else None, cs)
